@@ -4,4 +4,5 @@ let table : (string * (Model.sx -> Model.sx)) list = [
   "voteset", Model.check_voteset;
   "valset", Model.check_valset;
   "signer", Model.check_signer;
+  "admin", Model.check_admin;
 ]
